@@ -72,6 +72,16 @@ def build_module(case):
             # docstring *value* is exactly the intended text whatever quotes the doctest itself uses
             ln = ln.replace('\\', '\\\\').replace('"""', '\\"\\"\\"')
             L.append((body_ind + ln) if ln.strip() else '')
+        second = None
+        if fn.get('second_block') and fn['layout'] == 'google' and not fn.get('special'):
+            # a second google block of the same callable: two doctests (name:0, name:1) that share the generated function name
+            L.append('')
+            L.append('{}    Example:'.format(ind))
+            L.append('{}>>> T.append({})'.format(body_ind, 900 + i))
+            L.append("{}>>> print('second block of {}')".format(body_ind, name))
+            L.append('{}second block of {}'.format(body_ind, name))
+            second = ['T.append({})'.format(900 + i), "print('second block of {}')".format(name), '# doctest want:',
+                      '# second block of {}'.format(name)]
         L.append('{}    """'.format(ind))
         L.append('{}    return 1'.format(ind))
         L += ['', '']
@@ -79,7 +89,13 @@ def build_module(case):
                'nontrivial': fn.get('nontrivial', False)}
         if fn['layout'] == 'google':
             inv['google'].append(ent)
-        inv['freeform'].append(ent)
+            if second:
+                inv['google'].append({'callname': cn, 'num': 1, 'disabled': False, 'expected': second, 'nontrivial': False})
+        if second:
+            # in freeform style the docstring is one doctest holding both blocks
+            inv['freeform'].append(dict(ent, expected=list(expected) + second))
+        else:
+            inv['freeform'].append(ent)
     return L, inv
 
 
@@ -146,6 +162,25 @@ def doctest_lines(fn):
     return out_doc, expected
 
 
+def expected_inventory(inv, case, style):
+    if style == 'google':
+        return inv['google']
+    if style == 'freeform':
+        return inv['freeform']
+    # auto: google's answer for docstrings that hold a google block, else freeform's
+    gnames = {x['callname'] for x in inv['google']}
+    out = []
+    seen = set()
+    for x in inv['freeform']:
+        if x['callname'] in gnames:
+            if x['callname'] not in seen:
+                seen.add(x['callname'])
+                out += [g for g in inv['google'] if g['callname'] == x['callname']]
+        else:
+            out.append(x)
+    return out
+
+
 def split_functions(text):
     lines = text.split('\n')
     starts = [i for i, ln in enumerate(lines) if ln.startswith('def ')]
@@ -201,7 +236,7 @@ def check_case(case, ctx):
             text = out.getvalue()
             src = '\n'.join('{:3d} {}'.format(i + 1, ln) for i, ln in enumerate(lines))
             where = 'style={}\n--- dump\n{}\n--- module\n{}'.format(style, text[:5000], src[:6000])
-            exp = [x for x in (inv['google'] if style == 'google' else inv['freeform']) if not x['disabled']]
+            exp = [x for x in expected_inventory(inv, case, style) if not x['disabled']]
             if ctx is not None:
                 ctx.count()
                 ctx.tag('style:' + style)
@@ -282,7 +317,7 @@ def case_strategy(D, max_funcs, max_groups):
     funcs = []
     for i in range(D.int(1, max_funcs)):
         special = D.weighted([(None, 8), ('disabled', 1), ('comment_only', 1)])
-        fn = {'layout': D.choice(['google', 'bare']), 'in_class': D.chance(1, 5), 'special': special}
+        fn = {'layout': D.choice(['google', 'bare']), 'in_class': D.chance(1, 5), 'special': special, 'second_block': D.chance(1, 4)}
         if special is None:
             p = programs.gen_program(D, max_groups=max_groups)
             fn['prog'] = {k: p[k] for k in ('doc', 'labels', 'exec_lines', 'example_indent')}
@@ -304,6 +339,8 @@ def _check(case, ctx):
             ctx.tag('extra:' + k)
         if fn.get('special'):
             ctx.tag('special:' + fn['special'])
+        if fn.get('second_block') and fn['layout'] == 'google' and not fn.get('special'):
+            ctx.tag('two_blocks_one_callable')
     check_case(case, ctx)
 
 
